@@ -41,7 +41,8 @@ fn configs(u: &universe::Universe, tier: Tier) -> Vec<Cfg> {
         Tier::Quick => vec![
             Cfg { name: "coins/count4-chain3-cache5", txs: FAMILY_COINS.to_vec(), ..base.clone() },
             Cfg { name: "contracts/count4-chain3-cache5", txs: FAMILY_CONTRACTS.to_vec(), ..base.clone() },
-            gas(Cfg { name: "coins/gas4-chain3-cache65", txs: FAMILY_COINS.to_vec(), ..base.clone() }),
+            // (a tighter gas limit, about three scripts, and one level less: keeps the quick tier short)
+            Cfg { max_gas: gas_a * 3 + gas_a / 2, depth: 4, ..gas(Cfg { name: "coins/gas3-chain3-cache65", txs: FAMILY_COINS.to_vec(), ..base.clone() }) },
         ],
         Tier::Thorough => vec![
             Cfg { name: "all/count4-chain3-cache5", rich: true, max_dev: 2, depth: 6, ..base.clone() },
